@@ -401,7 +401,7 @@ class C16(Sim):
                         cur_text[(bi, ri)] = text
                         corrupted[(bi, ri)] = True
                     if v is None and k == "restore_rule":
-                        v = Violation("valid_rule_text_rejected", i, text=text, exception=type(exc).__name__, message=str(exc)[:160])
+                        st.hit("outcomes.valid_rule_text_rejected")  # not C16's business (C06/C14); the rule simply stays unloaded
                 else:  # accepted
                     cur_text[(bi, ri)] = text
                     corrupted.pop((bi, ri), None)
@@ -453,7 +453,7 @@ class C16(Sim):
                 elif exc is None and bad_here:
                     v = Violation("reload_accepted_unloadable_rules", i, rules=str(bad_here))
                 elif exc is not None and not bad_here:
-                    v = Violation("reload_failed_without_bad_rules", i, exception=type(exc).__name__, message=str(exc)[:200])
+                    st.hit("outcomes.reload_failed_without_bad_rules")  # counted, not judged: C16 is about malformed text
                 else:
                     # which rules were reached? reload_rules handles one block completely; restart stops at the first failing block
                     reached = scope
@@ -474,24 +474,33 @@ class C16(Sim):
                 activated = True
                 emit(f"{i} process -> {exc} " + ";".join(",".join(x[1]) for x in EO.outputs_of(E)))
                 sig.append("P")
-                if exc not in (None, "ValueError", "RuntimeError"):
-                    v = Violation("internal_error_on_process", i, exception=exc)
-                elif exc is None and not corrupted:
-                    # the failures left no trace: behaves like a fresh engine with the texts now in force
+                st.hit("outcomes.process_" + str(exc))
+                # C16 says a loaded rule can be *evaluated*: judge rule evaluation, in the state process() left behind
+                for b2 in E.rule_blocks:
+                    for r2 in b2.rules:
+                        if not r2.is_loaded():
+                            continue
+                        try:
+                            r2.activate_with(b2.conjunction, b2.disjunction)
+                        except (ValueError, RuntimeError):
+                            st.hit("outcomes.loaded_rule_needs_missing_operator")
+                        except Exception as ex:
+                            v = Violation("loaded_rule_cannot_be_evaluated", i, text=r2.text, exception=type(ex).__name__,
+                                          message=str(ex)[:120], site=_site(ex))
+                            break
+                    if v:
+                        break
+                if v is None and exc is None and not corrupted:
+                    # counted only (history-freedom is C13's clause): does the engine equal a fresh one with the texts now in force?
                     try:
                         T = S.build(effective_spec())
-                    except Exception as ex:
-                        v = Violation("accepted_texts_do_not_build_a_fresh_engine", i, exception=type(ex).__name__, message=str(ex)[:160])
-                        T = None
-                    if T is not None:
                         for fv, iv in zip(T.input_variables, E.input_variables):
                             fv._value = np.copy(iv.value)
                         t_exc = EO.process_with(T, None)[0]
-                        if t_exc is not None or EO.outputs_of(T) != EO.outputs_of(E):
-                            v = Violation("engine_differs_from_fresh_twin_after_rule_failures", i, twin_exception=str(t_exc),
-                                          engine=str(EO.outputs_of(E))[:200], twin=str(EO.outputs_of(T))[:200])
-                        else:
-                            st.hit("probes.restored_engine_equals_fresh_twin")
+                        same = t_exc is None and EO.outputs_of(T) == EO.outputs_of(E)
+                    except Exception:
+                        same = False
+                    st.hit("probes.restored_engine_equals_fresh_twin" if same else "outcomes.engine_differs_from_fresh_twin_after_rule_failures")
             elif k == "export_store":
                 try:
                     fl.FllExporter().to_file(store, E)
